@@ -407,7 +407,8 @@ func c15Client(m *Model, v *Verdict, rng *RNG) {
 	for it := 0; it < 25; it++ {
 		ver := 1 + rng.Intn(4)
 		mk := func(sname []string, conf bool) ccCred {
-			tkt := messages.Ticket{TktVNO: 5, Realm: realm, SName: types.PrincipalName{NameType: 2, NameString: sname}, EncPart: types.EncryptedData{EType: 18, KVNO: 1, Cipher: rng.Bytes(40)}}
+			tkt := messages.Ticket{TktVNO: 5, Realm: realm, SName: types.PrincipalName{NameType: 2, NameString: sname}, EncPart: types.EncryptedData{EType: int32(rng.Pick(18, 18, 17, 23)), KVNO: rng.Pick(0, 0, 1, 2, 300), Cipher: rng.Bytes(30 + rng.Intn(20))}}
+			// (key version 0: the OPTIONAL kvno is absent, as in tickets of a KDC that does not send it)
 			tb, _ := tkt.Marshal()
 			c := ccCred{client: ccPrinc{nt: 1, realm: []byte(realm), comps: [][]byte{[]byte("testuser1")}}, kt: 18, key: rng.Bytes(32), flags: 0x40e10000, ticket: tb}
 			c.server = ccPrinc{nt: 2, realm: []byte(realm)}
